@@ -20,16 +20,19 @@ package md4
 
 //@ func _Block
 //@ props C14
-//@ trusted
-//@ note MD4 compression over the full blocks of p: not verified; assumed to change only dig.s, to return the number of bytes consumed and (ghost) to append them to fed(dig)
+//@ note MD4 compression over the full blocks of p: the round function is not interpreted; checked here: it consumes exactly the whole blocks, returns their byte count, indexes its tables and the message schedule in range and changes only dig.s. By definition of the ghost stream the consumed bytes are appended to fed(dig).
+//@ assume_global len(shift1) == 4 && len(shift2) == 4 && len(shift3) == 4 && len(xIndex2) == 16 && len(xIndex3) == 16
+//@ assume_global forall(i, 0, 16, xIndex2[i] < 16 && xIndex3[i] < 16)
 //@ nonnil dig
 //@ modifies dig.s
 //@ modifies ghost(dig, flen)
 //@ modifies ghost(dig, fbuf)
 //@ ensures result == len(p) - len(p) % 64
-//@ ensures ghost(dig, flen) == old(ghost(dig, flen)) + result
-//@ ensures forall(q, old(ghost(dig, flen)), old(ghost(dig, flen)) + result, ghost(dig, fbuf)[q] == p[q - old(ghost(dig, flen))])
-//@ ensures forall(q, 0, old(ghost(dig, flen)), ghost(dig, fbuf)[q] == old(ghost(dig, fbuf)[q]))
+//@ assumed_ensures ghost(dig, flen) == old(ghost(dig, flen)) + result
+//@ assumed_ensures forall(q, old(ghost(dig, flen)), old(ghost(dig, flen)) + result, ghost(dig, fbuf)[q] == p[q - old(ghost(dig, flen))])
+//@ assumed_ensures forall(q, 0, old(ghost(dig, flen)), ghost(dig, fbuf)[q] == old(ghost(dig, fbuf)[q]))
+//@ loop 1 invariant n == len(entry(p)) - len(p) && n % 64 == 0 && 0 <= n
+//@ loop 1 invariant off(p) + len(p) == off(entry(p)) + len(entry(p))
 
 //@ func (*digest).Write
 //@ props C14
